@@ -954,13 +954,14 @@ func (c *Context) Exp(d, x *Decimal) (Condition, error) {
 	if t < 0 {
 		t = 0
 	}
-	var k, r Decimal
-	k.SetFinite(1, t)
+	var r Decimal
 	nc := c.WithPrecision(cp)
 	nc.Rounding = RoundHalfEven
-	if _, err := nc.Quo(&r, x, &k); err != nil {
-		return 0, fmt.Errorf("Quo: %w", err)
-	}
+	// r = x / 10^t is an exact shift of the exponent. (Dividing at the working
+	// precision would round away the digits of x beyond cp and lose accuracy
+	// for arguments with more digits than the precision.)
+	r.Set(x)
+	r.Exponent -= t
 	var ra Decimal
 	ra.Abs(&r)
 	p := int64(cp) + int64(t) + 2
